@@ -4,7 +4,7 @@
  * found", with print_bitmap_problem(), the INODE_UNINIT group skipping and the real descriptor
  * accessors of blknum.c.
  *
- * NG groups of 8 inodes (inode numbers 1 .. 8*NG).  Symbolic: every bit of ctx->inode_used_map,
+ * NG groups of IPG (4 or 8) inodes (inode numbers 1 .. IPG*NG).  Symbolic: every bit of ctx->inode_used_map,
  * ctx->inode_dir_map and fs->inode_map (what the disk says), every byte of the NG group descriptors
  * (free-inode count, used-dirs count, INODE_UNINIT flag, ...), s_free_inodes_count, fs->flags.
  * CSUM (compile time) = a group-descriptor checksum feature is on, so INODE_UNINIT is honoured.
@@ -39,7 +39,9 @@
 #ifndef CSUM
 #define CSUM 0
 #endif
-#define IPG 8
+#ifndef IPG
+#define IPG 8		/* inodes per group (4 or 8) */
+#endif
 #define VF_NPOS (NG * IPG + 1)
 #define VF_INODES (NG * IPG)
 
@@ -166,7 +168,7 @@ int main(void)
 	unsigned int f0;
 
 	VF_INPUT(IN);
-	/* BOUND: NG groups of 8 inodes, s_inodes_count = 8 * NG; CSUM (group descriptor checksums, so INODE_UNINIT counts) compile-time */
+	/* BOUND: NG groups of IPG inodes, s_inodes_count = IPG * NG; CSUM (group descriptor checksums, so INODE_UNINIT counts) compile-time */
 #ifdef SECOND
 	/*
 	 * SECOND: the state a finished e2fsck -y run leaves on disk, as established by the ANSWER 1 queries of this harness
@@ -180,6 +182,12 @@ int main(void)
 		for (p = 1; p < VF_NPOS; p++)
 			if ((p - 1) / IPG == g && IN.used[p])
 				IN.gd[g * DSZ + 18] &= ~0x01;
+#endif
+#ifdef UG
+	/* BOUND (-DUG=g): only group g may carry bg_flags (INODE_UNINIT ...); the other groups' flag words are 0 (keeps the inode loop's control concrete up to group g) */
+	for (g = 0; g < NG; g++)
+		if (g != UG)
+			IN.gd[g * DSZ + 18] = IN.gd[g * DSZ + 19] = 0;
 #endif
 	for (p = 0; p < VF_NPOS; p++)
 		ASSUME(IN.used[p] <= 1 && IN.dir[p] <= 1 && IN.disk[p] <= 1);
